@@ -40,7 +40,7 @@ ALPHA = {
 }
 
 
-def make_dir(tag):
+def make_dir(tag, file_list=False):
     d = os.path.join(drivers.scratch(), "c15_" + tag)
     shutil.rmtree(d, ignore_errors=True)
     os.makedirs(d)
@@ -51,6 +51,11 @@ def make_dir(tag):
         "rule": {"port_010": {"case": "upper", "case_exceptions": ["CLK_in"]}, "port_025": {"disable": False, "suffixes": ["_in", "_out"]}, "entity_012": {"case": "lower", "suffix_exceptions": ["_X"]}},
         "file_rules": [{os.path.join(d, "cfgerr.vhd"): {"rule": {"port_006": {"disable": True}}}}, {os.path.join(d, "lists.vhd"): {"rule": {"port_010": {"case_exceptions": ["data"]}}}}],
     }
+    if file_list:
+        # the per-file configuration of lists.vhd given through the file_list section (looked up by file name, whatever the position of
+        # the file in the batch); an unrelated plain entry comes first so that list position and batch position differ
+        cfg["file_rules"] = cfg["file_rules"][:1]
+        cfg["file_list"] = [os.path.join(d, "clean.vhd"), {os.path.join(d, "lists.vhd"): {"rule": {"port_010": {"case_exceptions": ["data"]}}}}]
     cp = os.path.join(d, "cfg.json")
     with open(cp, "w") as f:
         json.dump(cfg, f)
@@ -123,7 +128,7 @@ def exec_seq(item):
     """one history: the files of item['seq'] through the real apply_rules in this (forked) process, sharing the
     argument and configuration objects exactly as main() does"""
     r = explore.Result()
-    d, cp = make_dir("seq")
+    d, cp = make_dir("seq", file_list=bool(item.get("file_list")))
     fix = item["fix"]
     paths = [os.path.join(d, n + ".vhd") for n in item["seq"]]
     cla = drivers.parse_cla(["-f"] + paths + ["-p", "1", "-c", cp, "--junit", os.path.join(d, "j.xml"), "--json", os.path.join(d, "j.json")] + (["--fix"] if fix else []))
@@ -152,12 +157,12 @@ def exec_seq(item):
             r.violations.append({"key": ("shared_configuration_or_arguments_changed_by_processing_a_file", n), "detail": {}, "item": strip})
             cfg0 = cfg1
         if len(item["seq"]) == 1:
-            r.extra["solo"] = {f"{n}/{int(fix)}": res}
+            r.extra["solo"] = {f"{n}/{int(fix)}" + ("/fl" if item.get("file_list") else ""): res}
         else:
-            exp = _solo.get(f"{n}/{int(fix)}")
+            exp = _solo.get(f"{n}/{int(fix)}" + ("/fl" if item.get("file_list") else ""))
             if exp is not None and res != exp:
                 diff = [k for k in exp if exp[k] != res[k]]
-                r.violations.append({"key": ("result_differs_from_solo_result", diff[0], f"position={i}"), "detail": {"file": n, "after": item["seq"][:i], "field": diff[0], "solo": str(exp[diff[0]])[:200],
+                r.violations.append({"key": ("result_differs_from_solo_result", diff[0], f"position={i}") + (("file_list",) if item.get("file_list") else ()), "detail": {"file": n, "after": item["seq"][:i], "field": diff[0], "solo": str(exp[diff[0]])[:200],
                                                                                                                    "here": str(res[diff[0]])[:200]}, "item": strip})
     r.nontrivial = item["id"]
     if len(item["seq"]) == 3 and item["seq"][0] == "parsefail" and r.sample is None:
@@ -338,10 +343,18 @@ def execute(item):
     return {"seq": exec_seq, "sched": exec_sched, "channel": exec_channel}[item["part"]](item)
 
 
+FL_NAMES = ("lists", "clean", "viol")  # sub-alphabet for the histories in which lists.vhd is configured through the file_list section
+
+
+def _solo_items():
+    return [{"id": f"seq/{n}/{f}", "part": "seq", "seq": [n], "fix": f} for n in ALPHA for f in (False, True)] + \
+        [{"id": f"seq/{n}/{f}/fl", "part": "seq", "seq": [n], "fix": f, "file_list": True} for n in FL_NAMES for f in (False, True)]
+
+
 def reproduce(item):
     global _solo
     if item["part"] == "seq" and len(item["seq"]) > 1 and not _solo:
-        solo = [{"id": f"seq/{n}/{f}", "part": "seq", "seq": [n], "fix": f} for n in ALPHA for f in (False, True)]
+        solo = _solo_items()
         _solo = explore.run(solo, execute, horizon=120.0, label=PROP + "solo", chunk=1).extra.get("solo", {})
     return {report.key_str(v["key"]) for v in execute(item).violations}
 
@@ -355,7 +368,7 @@ def main(tier):
     cla = drivers.parse_cla(["-f", os.path.join(d, "clean.vhd"), "-p", "1", "-c", cp, "--fix"])
     with contextlib.redirect_stdout(io.StringIO()):
         _ar.apply_rules(cla, _config.New(cla), (0, os.path.join(d, "clean.vhd")))
-    solo = [{"id": f"seq/{n}/{f}", "part": "seq", "seq": [n], "fix": f} for n in names for f in (False, True)]
+    solo = _solo_items()
     m0 = explore.run(solo, execute, horizon=120.0, label=PROP + "solo", chunk=1)
     _solo = m0.extra.get("solo", {})
     seqs = []
@@ -365,6 +378,10 @@ def main(tier):
                 if tier == "quick" and L == 3 and (f is False) and s[0] not in ("parsefail", "cfgerr", "lists", "fixable", "opencmt"):
                     continue
                 seqs.append({"id": f"seq/{'+'.join(s)}/{f}", "part": "seq", "seq": list(s), "fix": f})
+    for L in (2, 3):
+        for sq in itertools.product(FL_NAMES, repeat=L):
+            for f in (False, True):
+                seqs.append({"id": f"seq/{'+'.join(sq)}/{f}/fl", "part": "seq", "seq": list(sq), "fix": f, "file_list": True})
     m1 = explore.run(seqs, execute, horizon=240.0, label=PROP + "seq", chunk=8)
     sched = []
     pool_files = ["fixable", "viol", "parsefail", "lists", "clean", "cfgerr"]
@@ -385,7 +402,7 @@ def main(tier):
         PROP, tier, "model_checking", [m0, m1, m2, m3], t0,
         "(a) node = fingerprint of every module-level and class-level list/dict/set of every loaded vsg.* module, of module-level vsg instances and of the shared config / argument objects; edge = one real "
         "apply_rules.apply_rules(args, config, (i, file)) for file in a 10-file alphabet (clean, violations, fixable, parse failure, configuration error via file_rules, pragmas, code tags, list-valued options, "
-        "fix target, file ending inside an unclosed delimited comment), with and without --fix: every edge must be a self-loop, and all sequences of length <= 3 are executed concretely with every file's (report, JUnit, JSON entry, exit contribution, fixed "
+        "fix target, file ending inside an unclosed delimited comment), with and without --fix, and over a 3-file sub-alphabet with the per-file configuration given through the file_list section (list order differs from batch order): every edge must be a self-loop, and all sequences of length <= 3 are executed concretely with every file's (report, JUnit, JSON entry, exit contribution, fixed "
         "bytes) compared with its solo result; (b) main() with multiprocessing.Pool replaced by a controlled pool: every partition of the task list into <= p index-ordered groups (p in 2, 3), every order of "
         "the files, each group a real forked worker; everything main() prints and writes must equal the one-job run; the real Pool runs free as conformance; (c) every seed by name and through --stdin, also with a control / separator character (FF, VT, FS, GS, RS, NEL, LS, PS, TAB) inside a comment; "
         "non-trivial = histories / schedules / seeds with violations",
